@@ -735,8 +735,11 @@ def r28_zip_map_collect(toks, log):
             while j < len(toks) and not P(toks[j], "{"):
                 hdr.append(toks[j].text); j += 1
             # for ( X , Y ) in A . iter_mut ( ) . zip ( B . iter ( ) ) {
-            if len(pat) == 3 and pat[1] == "," and len(hdr) == 15 and hdr[0] == "in" and hdr[2:7] == [".", "iter_mut", "(", ")", "."] and hdr[7:9] == ["zip", "("] and hdr[10:] == [".", "iter", "(", ")", ")"]:
-                X, Y, A, B = pat[0], pat[2], hdr[1], hdr[9]
+            zi = None
+            for q in range(2, len(hdr) - 6):
+                if hdr[q:q + 7] == [".", "iter_mut", "(", ")", ".", "zip", "("]: zi = q; break
+            if len(pat) == 3 and pat[1] == "," and hdr and hdr[0] == "in" and zi is not None and hdr[-5:] == [".", "iter", "(", ")", ")"] and "{" not in hdr:
+                X, Y, A, B = pat[0], pat[2], " ".join(hdr[1:zi]), " ".join(hdr[zi + 7:-5])
                 bc = match_close(toks, j)
                 body = toks[j + 1:bc]
                 nb = []
@@ -745,6 +748,9 @@ def r28_zip_map_collect(toks, log):
                     if P(body[k], "*") and k + 1 < len(body) and body[k + 1].kind == "id" and body[k + 1].text in (X, Y) and (k == 0 or not (body[k - 1].kind in ("id", "num") or body[k - 1].text in (")", "]"))):
                         src = A if body[k + 1].text == X else B
                         nb += toks_of("%s [ vx_z ]" % src, body[k].line); k += 2
+                    elif body[k].kind == "id" and body[k].text == Y and not (k > 0 and P(body[k - 1], ".")):
+                        # the shared reference used as a value (`coeff * y` with y: &f64): the element itself
+                        nb += toks_of("%s [ vx_z ]" % B, body[k].line); k += 1
                     else:
                         nb.append(body[k]); k += 1
                 ln = t.line
@@ -826,6 +832,82 @@ def r30_mut_self(toks, log):
             toks[j + 1:j + 1] = toks_of("let mut vx_self = self ;", toks[j].line)
             log.append(("R30", ln, "mut self receiver -> local vx_self"))
         i += 1
+    return toks
+
+def r31_enum_take_mut(toks, log):
+    """R31: `for (I, ROW) in X.iter_mut().enumerate().take(N) { .. ROW .. }`  ->
+            `for I in 0 .. (min of X.len() and N) { .. X[I] .. }`   (ROW is the I-th element, borrowed mutably)"""
+    toks = list(toks)
+    i = 0
+    while i < len(toks):
+        t = toks[i]
+        if t.kind == "id" and t.text == "for" and i + 1 < len(toks) and P(toks[i + 1], "("):
+            pc = match_close(toks, i + 1)
+            pat = [u.text for u in toks[i + 2:pc]]
+            j = pc + 1; hdr = []
+            while j < len(toks) and not P(toks[j], "{"):
+                hdr.append(toks[j]); j += 1
+            ht = [u.text for u in hdr]
+            tail = [".", "iter_mut", "(", ")", ".", "enumerate", "(", ")", ".", "take", "("]
+            if len(pat) == 3 and pat[1] == "," and len(ht) > 14 and ht[0] == "in" and ht[2:13] == tail and ht[-1] == ")":
+                I, ROW, X = pat[0], pat[2], ht[1]
+                N = " ".join(ht[13:-1])
+                bc = match_close(toks, j)
+                body = toks[j + 1:bc]
+                nb = []
+                for u in body:
+                    if u.kind == "id" and u.text == ROW: nb += toks_of("%s [ %s ]" % (X, I), u.line)
+                    else: nb.append(u)
+                ln = t.line
+                head = toks_of("for %s in 0 .. ( if %s . len ( ) < %s { %s . len ( ) } else { %s } ) {" % (I, X, N, X, N), ln)
+                toks[i:bc] = head + nb
+                log.append(("R31", ln, "for (%s, %s) in %s.iter_mut().enumerate().take(%s) -> index loop" % (I, ROW, X, N)))
+                i += len(head); continue
+        i += 1
+    return toks
+
+def r32_for_continue(toks, log):
+    """R32: inside a `for` body,  `if C { continue; } REST`  ->  `if !(C) { REST }`
+    (Verus has no `continue` in for-loops; skipping the rest of the body is the same as guarding it)"""
+    toks = list(toks)
+    changed = True
+    while changed:
+        changed = False
+        i = 0
+        while i < len(toks):
+            if toks[i].kind == "id" and toks[i].text == "for":
+                j = i + 1
+                while j < len(toks) and not P(toks[j], "{"):
+                    if toks[j].kind == "punct" and toks[j].text in ("(", "["): j = match_close(toks, j) + 1
+                    else: j += 1
+                if j >= len(toks): break
+                bc = match_close(toks, j)
+                k = j + 1
+                while k < bc:
+                    u = toks[k]
+                    if u.kind == "punct" and u.text in OPEN:
+                        k = match_close(toks, k) + 1; continue
+                    if u.kind == "id" and u.text == "if":
+                        # condition up to the `{` at depth 0
+                        c = k + 1
+                        while not P(toks[c], "{"):
+                            if toks[c].kind == "punct" and toks[c].text in ("(", "["): c = match_close(toks, c) + 1
+                            else: c += 1
+                        ce = match_close(toks, c)
+                        inner = [x.text for x in toks[c + 1:ce]]
+                        if inner == ["continue", ";"] and not (ce + 1 < len(toks) and toks[ce + 1].text == "else"):
+                            ln = u.line
+                            cond = toks[k + 1:c]
+                            rest = toks[ce + 1:bc]
+                            new = [T("id", "if", ln), T("punct", "!", ln), T("punct", "(", ln)] + cond + [T("punct", ")", ln), T("punct", "{", ln)] + rest + [T("punct", "}", ln)]
+                            toks[k:bc] = new
+                            log.append(("R32", ln, "if .. { continue; } -> guarded rest of the for body"))
+                            changed = True
+                            break
+                        k = ce + 1; continue
+                    k += 1
+                if changed: break
+            i += 1
     return toks
 
 def r5_local_const(toks, log):
@@ -935,10 +1017,12 @@ def apply_rewrites(toks, cfg, log):
     if cfg.get("subst_pre"):
         toks = subst(toks, log, cfg["subst_pre"])
     toks = r16_assert_eq(toks, log)
+    toks = r31_enum_take_mut(toks, log)
     toks = r27_fold_max(toks, log)
     toks = r28_zip_map_collect(toks, log)
     toks = r29_all_and_ref_for(toks, log)
     toks = r30_mut_self(toks, log)
+    toks = r32_for_continue(toks, log)
     if cfg.get("unmodelled"):
         toks = r15_unmodelled(toks, log)
     toks = r26_for_pairs(toks, log)
